@@ -632,7 +632,13 @@ func (v *StrictArray) MarshalBinary() (data []byte, err error) {
 		return nil, oe.Wrap(err, "marshal")
 	}
 
-	if err = binary.Write(b, binary.BigEndian, v.count); err != nil {
+	// The count of strict array is the number of elements to marshal,
+	// which is only set by unmarshal, so we always use the actual elements.
+	v.lock.Lock()
+	count := uint32(len(v.properties))
+	v.lock.Unlock()
+
+	if err = binary.Write(b, binary.BigEndian, count); err != nil {
 		return nil, oe.Wrap(err, "marshal")
 	}
 
